@@ -2,7 +2,10 @@ module verif/harness
 
 go 1.21
 
-require github.com/vimeo/dials v0.0.0
+require (
+	github.com/spf13/pflag v1.0.5
+	github.com/vimeo/dials v0.0.0
+)
 
 require (
 	github.com/fatih/structtag v1.2.0 // indirect
